@@ -143,6 +143,10 @@ Definition c01_judge_orig (c : wg_case) : nat :=
 Definition c02_judge_orig (c : wg_case) : nat :=
   if in_domain c then verdict (c02_ok (obs_trace c) && tmo_ok c) (model_eq_orig c) else 0%nat.
 
+(* cross-check of the two formulations of the C01 monitor on an observed trace: 0 = agree *)
+Definition mon_agree (c : wg_case) : nat :=
+  if Bool.eqb (c01_ok (obs_trace c)) (c01_decl (obs_trace c)) then 0%nat else 2%nat.
+
 (* model-only correspondence (spec ignored): used to tell apart code 2 from code 1 causes *)
 Definition corr_judge (c : wg_case) : nat := if model_eq c then 0%nat else 2%nat.
 
